@@ -104,16 +104,23 @@ Definition find_config (fs : fsys) (path : str) : find_result :=
 Inductive user_config :=
   | UCFile (p : str)      (* an opened project / explicit config file *)
   | UCGlobal              (* ~/.config/regal/config.yaml *)
-  | UCErr.                (* err != nil is returned *)
+  | UCConflict            (* config.ErrConflictingConfigFiles is passed on *)
+  | UCErr.                (* any other err != nil is returned *)
 
-(* [explicit] = Some ok : --config-file was given and os.Open succeeded (ok) or failed;
-   [global_dir] : ~/.config/regal exists; [global_cfg] : config.yaml inside can be opened *)
-Definition read_user_config (explicit : option (str * bool)) (found : find_result)
-           (global_dir global_cfg : bool) : user_config :=
+(* [explicit] = Some (p, ok) : --config-file p was given and os.Open succeeded (ok) or failed;
+   [global_dir] : ~/.config/regal exists; [global_cfg] : config.yaml inside can be opened.
+   [report_conflict] = false gives the code as it was at the pinned commit, where the conflict
+   error of FindConfig was treated like "nothing found". *)
+Definition read_user_config_gen (report_conflict : bool) (explicit : option (str * bool))
+           (found : find_result) (global_dir global_cfg : bool) : user_config :=
   let first := match explicit with
                | Some (p, true) => UCFile p
                | Some (_, false) => UCErr
-               | None => match found with FFound p => UCFile p | FErr _ => UCErr end
+               | None => match found with
+                         | FFound p => UCFile p
+                         | FErr EConflict => if report_conflict then UCConflict else UCErr
+                         | FErr _ => UCErr
+                         end
                end in
   match first with
   | UCErr => if global_dir then (if global_cfg then UCGlobal else UCErr) else UCErr
@@ -123,15 +130,21 @@ Definition read_user_config (explicit : option (str * bool)) (found : find_resul
 (* what `regal lint` / `regal fix` then do (cmd/lint.go, cmd/fix.go: switch on err) *)
 Inductive cli_choice :=
   | UseFile (p : str) | UseGlobal | UseDefaults
-  | Fatal.                (* "user-provided config file not found" *)
+  | Fatal.                (* the command fails: "user-provided config file not found" /
+                             "failed to find user config: conflicting config files ..." *)
 
-Definition cli_config (explicit : option (str * bool)) (found : find_result)
-           (global_dir global_cfg : bool) : cli_choice :=
-  match read_user_config explicit found global_dir global_cfg with
+Definition cli_config_gen (report_conflict : bool) (explicit : option (str * bool))
+           (found : find_result) (global_dir global_cfg : bool) : cli_choice :=
+  match read_user_config_gen report_conflict explicit found global_dir global_cfg with
   | UCFile p => UseFile p
   | UCGlobal => UseGlobal
+  | UCConflict => Fatal
   | UCErr => match explicit with Some _ => Fatal | None => UseDefaults end
   end.
+
+Definition read_user_config := read_user_config_gen true.
+Definition cli_config := cli_config_gen true.
+Definition cli_config_pinned := cli_config_gen false.
 
 (* ---------- directory chains ---------- *)
 
